@@ -40,14 +40,17 @@
                     subscription check and the overlapping-fields pass (in the model's terms) find nothing
                                                                               (C04_fields_valid_silent, C04_spreads_valid_no_primary,
                                                                                C04_variables_valid_no_primary, C04_verdict_up_to_two_rules_partial)
-    NOT proved: the equivalences for 5.2.3.1 (subscription root: addFieldSelections against the Spec's
-    CollectFields) and 5.3.2 (FieldsInSetCanMerge / SameResponseShape), hence validate_verdict itself;
+                  - addFieldSelections files exactly the inductively collected fields ([InC]) when selection
+                    sets sit at distinct positions                               (C04_collect_complete, C04_collect_sound,
+                                                                               C04_subscription_single_root_model)
+    NOT proved: the equivalences for 5.2.3.1 (subscription root: the Spec's CollectFields against [InC];
+    the model side is proved) and 5.3.2 (FieldsInSetCanMerge / SameResponseShape), hence validate_verdict itself;
     validate_error_located.  These are covered on every run by the correspondence check and the
     Spec oracle only. *)
 From Coq Require Import List NArith.
 From ApiFu Require Import Base.Sexp Vld.Ast Vld.Inspect Vld.InspectProofs Vld.TypeInfoModel Vld.TypeInfoPure Vld.ValidatorModel Vld.ValidSpec
      Vld.Hyps Vld.ProofsCommon Vld.ProofsDirectives Vld.ProofsArguments Vld.ProofsFragDecl Vld.ProofsValues
-     Vld.ProofsCycles Vld.ProofsVarsOrder Vld.ProofsOrder Vld.ProofsOperations Vld.ProofsTotal Vld.Enumerate Vld.ProofsFields Vld.ProofsMemo Vld.ValidatorProofs Vld.ProofsSpreads Vld.ProofsSecondary Vld.ProofsSecondaryAll Vld.ProofsSpreadsSpec Vld.ProofsFieldsConverse Vld.ProofsVarsConverse Vld.ProofsComplete Vld.ProofsSpecReach Vld.ProofsVarsSpec Vld.ProofsDepth Vld.ProofsDepthRule Vld.MemoTransfer Vld.ProofsMemoConverse Vld.MemoEquiv Vld.ProofsTypeInfoValues Vld.Witness.
+     Vld.ProofsCycles Vld.ProofsVarsOrder Vld.ProofsOrder Vld.ProofsOperations Vld.ProofsTotal Vld.Enumerate Vld.ProofsFields Vld.ProofsMemo Vld.ValidatorProofs Vld.ProofsSpreads Vld.ProofsSecondary Vld.ProofsSecondaryAll Vld.ProofsSpreadsSpec Vld.ProofsFieldsConverse Vld.ProofsVarsConverse Vld.ProofsComplete Vld.ProofsCollect Vld.ProofsSpecReach Vld.ProofsVarsSpec Vld.ProofsDepth Vld.ProofsDepthRule Vld.MemoTransfer Vld.ProofsMemoConverse Vld.MemoEquiv Vld.ProofsTypeInfoValues Vld.Witness.
 Import ListNotations.
 
 (** ** determinism: acceptance is a function of schema, features and document alone *)
@@ -394,6 +397,27 @@ Theorem C04_verdict_up_to_two_rules_partial : forall pi S F D,
    (forall e2, rule_fields_m repaired pi S F (pti_doc (q_unwrap_obj repaired) S F D) = Done e2 -> primary e2 = [])).
 Proof. exact verdict_up_to_two_rules. Qed.
 
+(** ** addFieldSelections against an inductive characterisation (the model side of 5.2.3.1)
+    [InC A ss f]: field [f] is written in [ss], or in an inline fragment of it, or in the fragment a
+    spread of it names — transitively.  When the selection sets of the document sit at pairwise
+    distinct positions (true of a parsed document), addFieldSelections files exactly these fields,
+    whatever it visits first and however often a fragment is spread; hence the subscription check
+    "one entry" says: the collected fields exist and share one response name. *)
+Theorem C04_collect_complete : forall A,
+  (forall s1 s2, In s1 (all_subs A) -> In s2 (all_subs A) -> ss_pos s1 = ss_pos s2 -> s1 = s2) ->
+  forall fuel ss m v, In ss (all_subs A) -> collect repaired A fuel [] [] ss = COk m v ->
+  forall f, InC A ss f -> In (response_name f) (keys m).
+Proof. exact collect_complete. Qed.
+Theorem C04_collect_sound : forall A fuel ss m v k,
+  collect repaired A fuel [] [] ss = COk m v -> In k (keys m) -> exists f, InC A ss f /\ response_name f = k.
+Proof. exact collect_sound. Qed.
+Theorem C04_subscription_single_root_model : forall A,
+  (forall s1 s2, In s1 (all_subs A) -> In s2 (all_subs A) -> ss_pos s1 = ss_pos s2 -> s1 = s2) ->
+  forall ss m v, In ss (all_subs A) -> add_selections repaired A [] (Some ss) = COk m v ->
+  (Nat.eqb (length m) 1 = true <->
+   (exists f, InC A ss f) /\ forall f g, InC A ss f -> InC A ss g -> response_name f = response_name g).
+Proof. exact single_key_iff. Qed.
+
 (** ** rule groups against sections of the specification *)
 (** 5.7.1 – 5.7.3 (directives defined, in valid locations, unique per location): no hypothesis *)
 Theorem C04_rule_directives_iff : forall S F D,
@@ -582,6 +606,9 @@ Print Assumptions C04_fields_valid_silent.
 Print Assumptions C04_spreads_valid_no_primary.
 Print Assumptions C04_variables_valid_no_primary.
 Print Assumptions C04_verdict_up_to_two_rules_partial.
+Print Assumptions C04_collect_complete.
+Print Assumptions C04_collect_sound.
+Print Assumptions C04_subscription_single_root_model.
 Print Assumptions C04_rule_directives_iff.
 Print Assumptions C04_rule_fragment_declarations_iff.
 Print Assumptions C04_rule_operations_iff_partial.
